@@ -270,10 +270,15 @@ def modValueInf : Option Value → Bool
   | some (.float b) => F64.isInf b
   | _ => false
 
-/-- `mod`: the TypeDef chosen from the constant modulus -/
-def modTD : Option Value → TD
+/-- `mod` with a constant non-zero integer modulus: the remainder has the kind of the dividend
+    (before the fix the kind was `integer` whatever the dividend: `mod(0.1, 1)`). -/
+def modDividendKind (k0 : Kind) : Kind :=
+  if k0.isInteger then Kind.integer else if k0.isFloat then Kind.float else Kind.float.orInteger
+
+/-- `mod`: the TypeDef chosen from the constant modulus (`k0` = kind of the dividend) -/
+def modTD (k0 : Kind) : Option Value → TD
   | some (.float b) => ⟨Kind.float, !F64.isNormal b⟩
-  | some (.int i) => ⟨Kind.integer, decide (i = 0)⟩
+  | some (.int i) => if i = 0 then ⟨Kind.integer, true⟩ else ⟨modDividendKind k0, false⟩
   | _ => ⟨Kind.float.orInteger, true⟩
 
 /-- `FunctionExpression::type_def` of each function, for the argument slots `as`. -/
@@ -312,7 +317,7 @@ def declaredFn (F : Fn) (as : ASlots) : TD :=
   | .abs | .floor | .ceil | .round =>
     ⟨if k0.isFloat || k0.isInteger then k0 else intOrFloat, false⟩
   | .mod =>
-    let td := modTD (aconst as 1)
+    let td := modTD k0 (aconst as 1)
     if modValueInf (aconst as 0) then ⟨td.kind, true⟩ else td
   | .parseInt => ⟨Kind.integer, true⟩
   | .parseFloat => ⟨Kind.float, true⟩
